@@ -44,6 +44,7 @@ def main():
     with_suite = '--suite' in a; a = [x for x in a if x != '--suite']
     if a and a[0] == '--import':
         wt, prop, name = a[1], a[2], a[3]
+        if not name.startswith(prop + '-'): name = prop + '-' + name
         out = os.path.join(root, 'seeded', name); os.makedirs(out, exist_ok=True)
         for f in ('patch.diff', 'demo.py', 'meta.json'): shutil.copy(os.path.join(wt, '_seed', f), out)
         try: meta = json.load(open(out + '/meta.json'))
